@@ -10,6 +10,11 @@ package cmap
 // there, constrained only by the lock invariant), U the state right before the release. Each postcondition
 // relates the results and the abstract map at U to the abstract map at L by the sequential map model.
 // `tp` is the sort of values of a type parameter.
+// Keys / Range / ForEach enumerate the map: that `range` over a map that is not written produces every key exactly once
+// is the engine's listed language-semantics assumption (ghosts rangeseen / rangecount); on top of it the contracts prove
+// that Keys is a duplicate-free enumeration of exactly the key set, and that Range / ForEach call fn exactly once per pair
+// (Range: until the first false answer). Not covered: the zero value returned by Load / LoadAndDelete for an absent key
+// (no spec-level zero of a type parameter); re-entrancy (a callback that calls any method of the same map may deadlock).
 
 //@ type mapimpl
 //@   lock lock protects m
@@ -66,24 +71,54 @@ package cmap
 //@   at call RLock#0 label L
 //@   at before call RUnlock#0 label U
 
+// Range: fn is called under the read lock, exactly once for every pair of the map as it was when the lock was taken,
+// until fn answers false; no call after a false answer. ghost ncall[k]: number of calls of fn with key k.
+// `at call funcvalue assume`: fn does not change the map. It cannot: the read lock is held across the call, so a Store /
+// Delete / Clear / Keys from fn (or from any other goroutine) blocks until Range returns (from fn itself: for ever).
 //@ func (*mapimpl).Range
 //@   tags C14
-//@   requires m != nil
+//@   requires m != nil && fn != nil
 //@   at call RLock#0 label L
+//@   ghost stopped bool
+//@   ghost ncall [tp]int
+//@   at entry ghost stopped = false
+//@   at entry ghost ncall = lambda k tp :: 0
 //@   at before call funcvalue assert [C14.map.range.underlock] heldr(m.lock)
-//@   at before call funcvalue assert [C14.map.range.pair] haskey(m.m, arg0) && arg1 == m.m[arg0]
-//@   loop 0 invariant heldr(m.lock) && m.m == at(L, m.m) && (forall j tp :: haskey(m.m, j) == at(L, haskey(m.m, j)) && m.m[j] == at(L, m.m[j]))
+//@   at before call funcvalue assert [C14.map.range.pair] at(L, haskey(m.m, arg0)) && arg1 == at(L, m.m[arg0])
+//@   at before call funcvalue assert [C14.map.range.stops] !stopped
+//@   at before call funcvalue ghost ncall = update(ncall, arg0, ncall[arg0] + 1)
+//@   at call funcvalue ghost stopped = !res0
+//@   ensures [C14.map.range.once] forall k tp :: ncall[k] == 0 || (ncall[k] == 1 && at(L, haskey(m.m, k)))
+//@   ensures [C14.map.range.complete] !stopped ==> (forall k tp :: at(L, haskey(m.m, k)) ==> ncall[k] == 1)
+//@   ensures [C14.map.range.pure] forall j tp :: haskey(m.m, j) == at(L, haskey(m.m, j)) && m.m[j] == at(L, m.m[j])
+//@   loop 0 invariant !stopped && heldr(m.lock) && m.m == at(L, m.m) && (forall j tp :: haskey(m.m, j) == at(L, haskey(m.m, j)) && m.m[j] == at(L, m.m[j]))
+//@   loop 0 invariant forall k tp :: (rangeseen[k] ==> (ncall[k] == 1 && haskey(m.m, k))) && (!rangeseen[k] ==> ncall[k] == 0)
 //@   at call funcvalue assume m.m == at(L, m.m) && (forall j tp :: haskey(m.m, j) == at(L, haskey(m.m, j)) && m.m[j] == at(L, m.m[j]))
 
+// Keys: a duplicate-free enumeration of exactly the keys of the map as it was when the lock was taken. ghost pos[k] is
+// the index at which key k was appended. The order in which `range` produces the keys is Go's (unspecified); that it
+// produces every key exactly once is the engine's listed language-semantics assumption (rangeseen / rangecount).
 //@ func (*mapimpl).Keys
 //@   tags C14
 //@   requires m != nil
+//@   ghost pos [tp]int
+//@   at next#0 ghost pos = res0 ? update(pos, res1, len(keys)) : pos
 //@   ensures [C14.map.keys.fresh] fresh(result) || len(result) == 0
-//@   ensures [C14.map.keys.members] forall i :: 0 <= i && i < len(result) ==> haskey(m.m, result[i])
+//@   ensures [C14.map.keys.members] forall i :: 0 <= i && i < len(result) ==> at(U, haskey(m.m, result[i]))
+//@   ensures [C14.map.keys.len] len(result) == at(L, len(m.m))
+//@   ensures [C14.map.keys.distinct] forall i :: 0 <= i && i < len(result) ==> pos[result[i]] == i
+//@   ensures [C14.map.keys.complete] forall k tp :: at(L, haskey(m.m, k)) ==> (0 <= pos[k] && pos[k] < len(result) && result[pos[k]] == k)
 //@   ensures [C14.map.keys.pure] m.m == at(L, m.m) && (forall j tp :: haskey(m.m, j) == at(L, haskey(m.m, j)) && m.m[j] == at(L, m.m[j]))
-//@   loop 0 invariant heldw(m.lock) && m.m == at(L, m.m) && fresh(keys) && (forall i :: 0 <= i && i < len(keys) ==> haskey(m.m, keys[i]))
+//@   loop 0 invariant heldw(m.lock) && m.m == at(L, m.m) && (forall j tp :: haskey(m.m, j) == at(L, haskey(m.m, j)) && m.m[j] == at(L, m.m[j])) && fresh(keys) && len(keys) == rangecount
+//@   loop 0 invariant forall i :: 0 <= i && i < len(keys) ==> (haskey(m.m, keys[i]) && rangeseen[keys[i]] && pos[keys[i]] == i)
+//@   loop 0 invariant forall k tp :: rangeseen[k] ==> (0 <= pos[k] && pos[k] < len(keys) && keys[pos[k]] == k)
 //@   at call Lock#0 label L
 //@   at before call Unlock#0 label U
+
+// Initial state: a new map is the empty map (also the base case of the lock invariant).
+//@ func NewMap
+//@   tags C14
+//@   ensures [C14.map.new.empty] fresh(unbox(result, "*github.com/dapr/kit/concurrency/cmap.mapimpl")) && unbox(result, "*github.com/dapr/kit/concurrency/cmap.mapimpl").m != nil && len(unbox(result, "*github.com/dapr/kit/concurrency/cmap.mapimpl").m) == 0 && (forall j tp :: !haskey(unbox(result, "*github.com/dapr/kit/concurrency/cmap.mapimpl").m, j))
 
 // ---- AtomicValue / atomicMap ----
 // tpadd is addition on the integer type parameter T (width unknown, so it is the model's wrapping addition).
@@ -150,6 +185,27 @@ package cmap
 //@   at call Lock#0 label L
 //@   at before call Unlock#0 label U
 
+//@ func NewAtomic
+//@   tags C14
+//@   ensures [C14.amap.new.empty] fresh(unbox(result, "*github.com/dapr/kit/concurrency/cmap.atomicMap")) && unbox(result, "*github.com/dapr/kit/concurrency/cmap.atomicMap").items != nil && len(unbox(result, "*github.com/dapr/kit/concurrency/cmap.atomicMap").items) == 0 && (forall j tp :: !haskey(unbox(result, "*github.com/dapr/kit/concurrency/cmap.atomicMap").items, j))
+
+// ForEach: fn runs under the read lock, exactly once for every pair of the map as it was when the lock was taken
+// (ghost ncall as for Range; the `assume` is justified as there).
+//@ func (*atomicMap).ForEach
+//@   tags C14
+//@   requires a != nil && fn != nil
+//@   at call RLock#0 label L
+//@   ghost ncall [tp]int
+//@   at entry ghost ncall = lambda k tp :: 0
+//@   at before call funcvalue assert [C14.amap.foreach.underlock] heldr(a.lock)
+//@   at before call funcvalue assert [C14.amap.foreach.pair] at(L, haskey(a.items, arg0)) && arg1 == at(L, a.items[arg0])
+//@   at before call funcvalue ghost ncall = update(ncall, arg0, ncall[arg0] + 1)
+//@   ensures [C14.amap.foreach.complete] forall k tp :: ncall[k] == (at(L, haskey(a.items, k)) ? 1 : 0)
+//@   ensures [C14.amap.foreach.pure] forall j tp :: haskey(a.items, j) == at(L, haskey(a.items, j)) && a.items[j] == at(L, a.items[j])
+//@   loop 0 invariant heldr(a.lock) && a.items == at(L, a.items) && (forall j tp :: haskey(a.items, j) == at(L, haskey(a.items, j)) && a.items[j] == at(L, a.items[j]))
+//@   loop 0 invariant forall k tp :: (rangeseen[k] ==> (ncall[k] == 1 && haskey(a.items, k))) && (!rangeseen[k] ==> ncall[k] == 0)
+//@   at call funcvalue assume a.items == at(L, a.items) && (forall j tp :: haskey(a.items, j) == at(L, haskey(a.items, j)) && a.items[j] == at(L, a.items[j]))
+
 //@ func (*atomicMap).Clear
 //@   tags C14
 //@   requires a != nil
@@ -157,98 +213,234 @@ package cmap
 //@   at call Lock#0 label L
 //@   at before call Unlock#0 label U
 
-// ---- per-key RW-mutex map (C13): bookkeeping only ----
-// Lookups happen under at least the read lock, creation / Delete* / Clear under the write lock (guard:*
-// obligations); the per-key Unlock/RUnlock of the delete variants happens before the entry is removed, while
-// the write lock is held. The per-key mutexes themselves are not part of the monitor discipline: their
-// exclusion semantics is sync.RWMutex's (assumed).
-
+// ---- per-key RW-mutex map (C13) ----
+// The property: never two exclusive holders, nor a writer together with a reader, of the same KEY, under any interleaving
+// of Lock/Unlock, RLock/RUnlock, DeleteUnlock/DeleteRUnlock by goroutines that pair their calls correctly. One
+// sync.RWMutex excludes (assumed: libspec/sync.spec); exclusion per key additionally needs that the key is bound to the
+// same mutex for as long as anybody holds it, waits for it, or has looked it up and is on the way to it. That is what
+// is proved here, from the property and not from the code:
+//   shared ghost  users[k]  number of goroutines that use key k's mutex (registered by get under the map lock, from the
+//                           look-up until their release);
+//   thread-local  mine[k]   the units of users[k] the current goroutine owns; hw[k] / hr[k]: how many of them it holds in
+//                           write / read mode (Unlock / DeleteUnlock require hw[k] >= 1, RUnlock / DeleteRUnlock hr[k] >= 1:
+//                           "pair their calls correctly"); mymu[k]: the RWMutex it registered with;
+//   [C13.kmutex.inv.live]    users[k] > 0 ==> the entry is present       (nobody's mutex is removed from under them)
+//   [C13.kmutex.inv.same]    mine[k] > 0 ==> items[k] is still mymu[k]   (same key -> same mutex while used)
+//   [C13.kmutex.inv.counter] the code's atomic counter items[k].users equals users[k]
+//   [..guar] (at every release of the map write lock) a section leaves the binding of every key that OTHER goroutines
+//            use untouched - this is what entitles them to assume [inv.same] at their next acquisition;
+//   [..rsection.inv] the invariant is re-established at the end of the read-locked sections that change counters (the
+//            engine checks lock invariants only at write-unlocks; the steps users.Add(+-1) + ghost update are atomic and
+//            each of them preserves the invariant, so concurrent read sections do not disturb each other);
+//   [..registers-under-lock] / [..counts-under-lock] every step of the counter (and with it the ghost registration) happens
+//            with the map lock held: a goroutine is registered before the map lock is dropped, so no schedule point lies
+//            between "looked the mutex up" and "counted as its user";
+//   [..nobody-else] delete-and-release removes the entry only when the caller was the last user (canary for the repaired
+//            defect C13-D1: unconditional delete), [..removed-when-last] and then it does remove it;
+//   [..which] Lock/RLock/Unlock/RUnlock/Delete*Unlock operate on mymu[key], in the right mode (anchor names), exactly once,
+//            and Lock/RLock block on it outside the map lock ([..outside]).
+// Delete and Clear remove entries unconditionally. They are not among the operations of the property's histories; applied
+// to a key somebody uses they break the binding (second mutex for the key - the same hazard as C13-D1). The shared ghost
+// forced[k] records exactly that (set only by Delete/Clear, only for keys with users[k] > 0); nothing is claimed for a
+// forced key afterwards.
+// The per-key counter keyMutex.users is not havocked at acquisitions (the engine cannot protect a nested struct field);
+// its value is tied to the havocked ghost by [inv.counter], which is assumed at every acquisition.
 //@ type mutex
-//@   lock lock protects items
-//@   lockinv lock self.items != nil
-//@   lockinv lock forall k tp :: haskey(self.items, k) ==> self.items[k] != nil
+//@   ghost users [tp]int
+//@   ghost forced [tp]bool
+//@   ghost mine [tp]int
+//@   ghost mymu [tp]ref
+//@   ghost hw [tp]int
+//@   ghost hr [tp]int
+//@   invariant [k.items] self.items != nil
+//@   invariant [k.entry] forall k tp :: haskey(self.items, k) ==> (self.items[k] != nil && allocated(self.items[k]))
+//@   invariant [k.distinct] forall j tp, k tp :: (haskey(self.items, j) && haskey(self.items, k) && j != k) ==> self.items[j] != self.items[k]
+//@   invariant [k.mine] forall k tp :: 0 <= self.mine[k] && self.mine[k] <= self.users[k]
+//@   invariant [k.live] forall k tp :: (self.users[k] > 0 && !self.forced[k]) ==> haskey(self.items, k)
+//@   invariant [k.counter] forall k tp :: (haskey(self.items, k) && !self.forced[k]) ==> self.items[k].users.v == self.users[k]
+//@   invariant [k.same] forall k tp :: (self.mine[k] > 0 && !self.forced[k]) ==> self.items[k].RWMutex == self.mymu[k]
+//@   lock lock protects items users forced
+//@   lockinv lock [C13.kmutex.inv.items] invonly(self, "k.items")
+//@   lockinv lock [C13.kmutex.inv.entry] invonly(self, "k.entry")
+//@   lockinv lock [C13.kmutex.inv.distinct] invonly(self, "k.distinct")
+//@   lockinv lock [C13.kmutex.inv.mine] invonly(self, "k.mine")
+//@   lockinv lock [C13.kmutex.inv.live] invonly(self, "k.live")
+//@   lockinv lock [C13.kmutex.inv.counter] invonly(self, "k.counter")
+//@   lockinv lock [C13.kmutex.inv.same] invonly(self, "k.same")
+
+//@ func (*mutex).get
+//@   tags C13 C07
+//@   requires a != nil
+//@   at call RLock#0 label L1
+//@   at before call RUnlock#0 label U1
+//@   at call Lock#0 label L2
+//@   at before call Unlock#0 label U2
+//@   at call Add#0 ghost a.users = update(a.users, key, a.users[key] + 1)
+//@   at call Add#0 ghost a.mine = update(a.mine, key, a.mine[key] + 1)
+//@   at call Add#0 ghost a.mymu = update(a.mymu, key, mutex.RWMutex)
+//@   at call Add#1 ghost a.users = update(a.users, key, a.users[key] + 1)
+//@   at call Add#1 ghost a.mine = update(a.mine, key, a.mine[key] + 1)
+//@   at call Add#1 ghost a.mymu = update(a.mymu, key, mutex.RWMutex)
+//@   at before call RUnlock#0 assert [C13.kmutex.get.rsection.inv] inv(a)
+//@   at every before call Add assert [C13.kmutex.get.registers-under-lock] held(a.lock) && arg0 == a.items[key].users && arg1 == 1
+//@   at before call RUnlock#0 assert [C13.kmutex.get.rsection.frame] a.forced == at(L1, a.forced) && (forall k tp :: k != key ==> (a.users[k] == at(L1, a.users[k]) && a.mine[k] == at(L1, a.mine[k]))) && a.users[key] - at(L1, a.users[key]) == a.mine[key] - at(L1, a.mine[key])
+//@   at before call RUnlock#0 assert [C13.kmutex.get.rsection.pure] forall j tp :: haskey(a.items, j) == at(L1, haskey(a.items, j)) && a.items[j] == at(L1, a.items[j])
+//@   at before call Unlock#0 assert [C13.kmutex.get.guar] forall k tp :: (at(L2, a.users[k]) > at(L2, a.mine[k]) && !a.forced[k]) ==> (haskey(a.items, k) && a.items[k] == at(L2, a.items[k]))
+//@   at before call Unlock#0 assert [C13.kmutex.get.wsection.frame] a.forced == at(L2, a.forced) && (forall k tp :: a.users[k] - at(L2, a.users[k]) == a.mine[k] - at(L2, a.mine[k]))
+//@   ensures [C13.kmutex.get.result] result != nil && result.RWMutex == a.mymu[key]
+//@   ensures [C13.kmutex.get.registered] a.mine == update(old(a.mine), key, old(a.mine[key]) + 1) && (forall k tp :: k != key ==> a.mymu[k] == old(a.mymu[k])) && a.hw == old(a.hw) && a.hr == old(a.hr)
+//@   ensures [C13.kmutex.get.samemutex] (old(a.mine[key]) > 0 && !a.forced[key]) ==> a.mymu[key] == old(a.mymu[key])
+//@   ensures [C13.kmutex.get.hit] at(L1, haskey(a.items, key)) ==> result == at(L1, a.items[key])
+//@   ensures [C13.kmutex.get.create] !at(L1, haskey(a.items, key)) ==> (at(U2, haskey(a.items, key)) && result == at(U2, a.items[key])
+//@        && (at(L2, haskey(a.items, key)) ==> at(U2, a.items[key]) == at(L2, a.items[key]))
+//@        && (!at(L2, haskey(a.items, key)) ==> fresh(result))
+//@        && (forall j tp :: j != key ==> (at(U2, haskey(a.items, j)) == at(L2, haskey(a.items, j)) && at(U2, a.items[j]) == at(L2, a.items[j]))))
 
 //@ func (*mutex).Lock
 //@   tags C13 C07
 //@   requires a != nil
-//@   ensures [C13.kmutex.lock.hit] at(L1, haskey(a.items, key)) ==> at(U1, a.items) == at(L1, a.items)
-//@   ensures [C13.kmutex.lock.create] !at(L1, haskey(a.items, key)) ==> (at(U2, haskey(a.items, key)) && at(U2, a.items[key]) != nil
-//@        && (at(L2, haskey(a.items, key)) ==> at(U2, a.items[key]) == at(L2, a.items[key]))
-//@        && (forall j tp :: j != key ==> (at(U2, haskey(a.items, j)) == at(L2, haskey(a.items, j)) && at(U2, a.items[j]) == at(L2, a.items[j]))))
-//@   at call RLock#0 label L1
-//@   at before call RUnlock#0 label U1
-//@   at call Lock#1 label L2
-//@   at before call Unlock#0 label U2
+//@   ghost locked ref
+//@   ghost nlock int
+//@   at entry ghost nlock = 0
+//@   at before call Lock#0 ghost locked = arg0
+//@   at before call Lock#0 assert [C13.kmutex.lock.outside] !held(a.lock)
+//@   at call Lock#0 ghost nlock = nlock + 1
+//@   at call Lock#0 ghost a.hw = update(a.hw, key, a.hw[key] + 1)
+//@   ensures [C13.kmutex.lock.which] nlock == 1 && locked == a.mymu[key]
+//@   ensures [C13.kmutex.lock.registered] a.mine == update(old(a.mine), key, old(a.mine[key]) + 1) && a.hw == update(old(a.hw), key, old(a.hw[key]) + 1) && a.hr == old(a.hr)
+//@   ensures [C13.kmutex.lock.samemutex] (forall k tp :: k != key ==> a.mymu[k] == old(a.mymu[k])) && ((old(a.mine[key]) > 0 && !a.forced[key]) ==> a.mymu[key] == old(a.mymu[key]))
 
 //@ func (*mutex).RLock
 //@   tags C13 C07
 //@   requires a != nil
-//@   ensures [C13.kmutex.rlock.create] !at(L1, haskey(a.items, key)) ==> (at(U2, haskey(a.items, key)) && at(U2, a.items[key]) != nil
-//@        && (at(L2, haskey(a.items, key)) ==> at(U2, a.items[key]) == at(L2, a.items[key]))
-//@        && (forall j tp :: j != key ==> (at(U2, haskey(a.items, j)) == at(L2, haskey(a.items, j)) && at(U2, a.items[j]) == at(L2, a.items[j]))))
-//@   at call RLock#0 label L1
-//@   at call Lock#0 label L2
-//@   at before call Unlock#0 label U2
+//@   ghost locked ref
+//@   ghost nlock int
+//@   at entry ghost nlock = 0
+//@   at before call RLock#0 ghost locked = arg0
+//@   at before call RLock#0 assert [C13.kmutex.rlock.outside] !held(a.lock)
+//@   at call RLock#0 ghost nlock = nlock + 1
+//@   at call RLock#0 ghost a.hr = update(a.hr, key, a.hr[key] + 1)
+//@   ensures [C13.kmutex.rlock.which] nlock == 1 && locked == a.mymu[key]
+//@   ensures [C13.kmutex.rlock.registered] a.mine == update(old(a.mine), key, old(a.mine[key]) + 1) && a.hr == update(old(a.hr), key, old(a.hr[key]) + 1) && a.hw == old(a.hw)
+//@   ensures [C13.kmutex.rlock.samemutex] (forall k tp :: k != key ==> a.mymu[k] == old(a.mymu[k])) && ((old(a.mine[key]) > 0 && !a.forced[key]) ==> a.mymu[key] == old(a.mymu[key]))
 
 //@ func (*mutex).Unlock
 //@   tags C13 C07
-//@   requires a != nil
-//@   ensures [C13.kmutex.unlock.pure] at(U, a.items) == at(L, a.items)
+//@   requires a != nil && a.mine[key] >= 1 && a.hw[key] >= 1
 //@   at call RLock#0 label L
 //@   at before call RUnlock#0 label U
+//@   ghost nunl int
+//@   at entry ghost nunl = 0
+//@   at before call Unlock#0 assert [C13.kmutex.unlock.which] a.forced[key] || arg0 == a.mymu[key]
+//@   at call Unlock#0 ghost nunl = nunl + 1
+//@   at call Unlock#0 ghost a.hw = update(a.hw, key, a.hw[key] - 1)
+//@   at call Add#0 ghost a.users = update(a.users, key, a.users[key] - 1)
+//@   at call Add#0 ghost a.mine = update(a.mine, key, a.mine[key] - 1)
+//@   at before call RUnlock#0 assert [C13.kmutex.unlock.rsection.inv] inv(a)
+//@   at every before call Add assert [C13.kmutex.unlock.counts-under-lock] held(a.lock) && (a.forced[key] || arg0 == a.items[key].users) && arg1 == -1
+//@   at before call RUnlock#0 assert [C13.kmutex.unlock.rsection.frame] a.forced == at(L, a.forced) && (forall k tp :: k != key ==> (a.users[k] == at(L, a.users[k]) && a.mine[k] == at(L, a.mine[k]))) && a.users[key] - at(L, a.users[key]) == a.mine[key] - at(L, a.mine[key])
+//@   at before call RUnlock#0 assert [C13.kmutex.unlock.rsection.pure] forall j tp :: haskey(a.items, j) == at(L, haskey(a.items, j)) && a.items[j] == at(L, a.items[j])
+//@   ensures [C13.kmutex.unlock.released] !at(U, a.forced[key]) ==> nunl == 1
+//@   ensures [C13.kmutex.unlock.units] !at(U, a.forced[key]) ==> (a.mine == update(old(a.mine), key, old(a.mine[key]) - 1) && a.hw == update(old(a.hw), key, old(a.hw[key]) - 1))
+//@   ensures [C13.kmutex.unlock.frame] a.hr == old(a.hr) && a.mymu == old(a.mymu)
 
 //@ func (*mutex).RUnlock
 //@   tags C13 C07
-//@   requires a != nil
-//@   ensures [C13.kmutex.runlock.pure] at(U, a.items) == at(L, a.items)
+//@   requires a != nil && a.mine[key] >= 1 && a.hr[key] >= 1
 //@   at call RLock#0 label L
 //@   at before call RUnlock#1 label U
-
-//@ func (*mutex).Delete
-//@   tags C13 C07
-//@   requires a != nil
-//@   ensures [C13.kmutex.delete] forall j tp :: at(U, haskey(a.items, j)) == (j != key && at(L, haskey(a.items, j)))
-//@   at call Lock#0 label L
-//@   at before call Unlock#0 label U
+//@   ghost nunl int
+//@   at entry ghost nunl = 0
+//@   at before call RUnlock#0 assert [C13.kmutex.runlock.which] a.forced[key] || arg0 == a.mymu[key]
+//@   at call RUnlock#0 ghost nunl = nunl + 1
+//@   at call RUnlock#0 ghost a.hr = update(a.hr, key, a.hr[key] - 1)
+//@   at call Add#0 ghost a.users = update(a.users, key, a.users[key] - 1)
+//@   at call Add#0 ghost a.mine = update(a.mine, key, a.mine[key] - 1)
+//@   at before call RUnlock#1 assert [C13.kmutex.runlock.rsection.inv] inv(a)
+//@   at every before call Add assert [C13.kmutex.runlock.counts-under-lock] held(a.lock) && (a.forced[key] || arg0 == a.items[key].users) && arg1 == -1
+//@   at before call RUnlock#1 assert [C13.kmutex.runlock.rsection.frame] a.forced == at(L, a.forced) && (forall k tp :: k != key ==> (a.users[k] == at(L, a.users[k]) && a.mine[k] == at(L, a.mine[k]))) && a.users[key] - at(L, a.users[key]) == a.mine[key] - at(L, a.mine[key])
+//@   at before call RUnlock#1 assert [C13.kmutex.runlock.rsection.pure] forall j tp :: haskey(a.items, j) == at(L, haskey(a.items, j)) && a.items[j] == at(L, a.items[j])
+//@   ensures [C13.kmutex.runlock.released] !at(U, a.forced[key]) ==> nunl == 1
+//@   ensures [C13.kmutex.runlock.units] !at(U, a.forced[key]) ==> (a.mine == update(old(a.mine), key, old(a.mine[key]) - 1) && a.hr == update(old(a.hr), key, old(a.hr[key]) - 1))
+//@   ensures [C13.kmutex.runlock.frame] a.hw == old(a.hw) && a.mymu == old(a.mymu)
 
 //@ func (*mutex).DeleteUnlock
 //@   tags C13 C07
-//@   requires a != nil
-//@   ensures [C13.kmutex.deleteunlock] forall j tp :: at(U, haskey(a.items, j)) == (j != key && at(L, haskey(a.items, j)))
+//@   requires a != nil && a.mine[key] >= 1 && a.hw[key] >= 1
 //@   at call Lock#0 label L
-//@   ensures [C13.kmutex.deleteunlock.released] at(L, haskey(a.items, key)) ==> (nunl == 1 && unlocked == at(L, a.items[key]))
-//@   ghost nunl int
-//@   ghost unlocked ref
-//@   at call Lock#0 ghost nunl = 0
-//@   at call Unlock#0 ghost nunl = nunl + 1
-//@   at before call Unlock#0 ghost unlocked = arg0
 //@   at before call Unlock#1 label U
-//@   at before call Unlock#0 assert heldw(a.lock) && haskey(a.items, key)
+//@   ghost nunl int
+//@   at entry ghost nunl = 0
+//@   at before call Unlock#0 assert [C13.kmutex.deleteunlock.which] a.forced[key] || arg0 == a.mymu[key]
+//@   at call Unlock#0 ghost nunl = nunl + 1
+//@   at call Unlock#0 ghost a.hw = update(a.hw, key, a.hw[key] - 1)
+//@   at call Add#0 ghost a.users = update(a.users, key, a.users[key] - 1)
+//@   at call Add#0 ghost a.mine = update(a.mine, key, a.mine[key] - 1)
+//@   at every before mapdelete assert [C13.kmutex.deleteunlock.nobody-else] a.forced[key] || a.users[key] == 0
+//@   at every before call Add assert [C13.kmutex.deleteunlock.counts-under-lock] heldw(a.lock) && (a.forced[key] || arg0 == a.items[key].users) && arg1 == -1
+//@   at before call Unlock#1 assert [C13.kmutex.deleteunlock.guar] forall k tp :: (at(L, a.users[k]) > at(L, a.mine[k]) && !a.forced[k]) ==> (haskey(a.items, k) && a.items[k] == at(L, a.items[k]))
+//@   at before call Unlock#1 assert [C13.kmutex.deleteunlock.wsection.frame] a.forced == at(L, a.forced) && (forall k tp :: a.users[k] - at(L, a.users[k]) == a.mine[k] - at(L, a.mine[k]))
+//@   ensures [C13.kmutex.deleteunlock.released] !at(U, a.forced[key]) ==> nunl == 1
+//@   ensures [C13.kmutex.deleteunlock.units] !at(U, a.forced[key]) ==> (a.mine == update(old(a.mine), key, old(a.mine[key]) - 1) && a.hw == update(old(a.hw), key, old(a.hw[key]) - 1))
+//@   ensures [C13.kmutex.deleteunlock.frame] a.hr == old(a.hr) && a.mymu == old(a.mymu)
+//@   ensures [C13.kmutex.deleteunlock.removed-when-last] !at(U, a.forced[key]) ==> (at(U, haskey(a.items, key)) == (at(L, a.users[key]) > 1))
+//@   ensures [C13.kmutex.deleteunlock.others] forall j tp :: j != key ==> (at(U, haskey(a.items, j)) == at(L, haskey(a.items, j)) && at(U, a.items[j]) == at(L, a.items[j]))
 
 //@ func (*mutex).DeleteRUnlock
 //@   tags C13 C07
-//@   requires a != nil
-//@   ensures [C13.kmutex.deleterunlock] forall j tp :: at(U, haskey(a.items, j)) == (j != key && at(L, haskey(a.items, j)))
+//@   requires a != nil && a.mine[key] >= 1 && a.hr[key] >= 1
 //@   at call Lock#0 label L
-//@   ensures [C13.kmutex.deleterunlock.released] at(L, haskey(a.items, key)) ==> (nunl == 1 && unlocked == at(L, a.items[key]))
-//@   ghost nunl int
-//@   ghost unlocked ref
-//@   at call Lock#0 ghost nunl = 0
-//@   at call RUnlock#0 ghost nunl = nunl + 1
-//@   at before call RUnlock#0 ghost unlocked = arg0
 //@   at before call Unlock#0 label U
-//@   at before call RUnlock#0 assert heldw(a.lock) && haskey(a.items, key)
+//@   ghost nunl int
+//@   at entry ghost nunl = 0
+//@   at before call RUnlock#0 assert [C13.kmutex.deleterunlock.which] a.forced[key] || arg0 == a.mymu[key]
+//@   at call RUnlock#0 ghost nunl = nunl + 1
+//@   at call RUnlock#0 ghost a.hr = update(a.hr, key, a.hr[key] - 1)
+//@   at call Add#0 ghost a.users = update(a.users, key, a.users[key] - 1)
+//@   at call Add#0 ghost a.mine = update(a.mine, key, a.mine[key] - 1)
+//@   at every before mapdelete assert [C13.kmutex.deleterunlock.nobody-else] a.forced[key] || a.users[key] == 0
+//@   at every before call Add assert [C13.kmutex.deleterunlock.counts-under-lock] heldw(a.lock) && (a.forced[key] || arg0 == a.items[key].users) && arg1 == -1
+//@   at before call Unlock#0 assert [C13.kmutex.deleterunlock.guar] forall k tp :: (at(L, a.users[k]) > at(L, a.mine[k]) && !a.forced[k]) ==> (haskey(a.items, k) && a.items[k] == at(L, a.items[k]))
+//@   at before call Unlock#0 assert [C13.kmutex.deleterunlock.wsection.frame] a.forced == at(L, a.forced) && (forall k tp :: a.users[k] - at(L, a.users[k]) == a.mine[k] - at(L, a.mine[k]))
+//@   ensures [C13.kmutex.deleterunlock.released] !at(U, a.forced[key]) ==> nunl == 1
+//@   ensures [C13.kmutex.deleterunlock.units] !at(U, a.forced[key]) ==> (a.mine == update(old(a.mine), key, old(a.mine[key]) - 1) && a.hr == update(old(a.hr), key, old(a.hr[key]) - 1))
+//@   ensures [C13.kmutex.deleterunlock.frame] a.hw == old(a.hw) && a.mymu == old(a.mymu)
+//@   ensures [C13.kmutex.deleterunlock.removed-when-last] !at(U, a.forced[key]) ==> (at(U, haskey(a.items, key)) == (at(L, a.users[key]) > 1))
+//@   ensures [C13.kmutex.deleterunlock.others] forall j tp :: j != key ==> (at(U, haskey(a.items, j)) == at(L, haskey(a.items, j)) && at(U, a.items[j]) == at(L, a.items[j]))
+
+// Delete / Clear: outside the property's histories, see the header (ghost forced).
+//@ func (*mutex).Delete
+//@   tags C13 C07
+//@   requires a != nil
+//@   at call Lock#0 label L
+//@   at before call Unlock#0 label U
+//@   at call Lock#0 ghost a.forced = update(a.forced, key, a.forced[key] || a.users[key] > 0)
+//@   ensures [C13.kmutex.delete] forall j tp :: at(U, haskey(a.items, j)) == (j != key && at(L, haskey(a.items, j)))
+//@   ensures [C13.kmutex.delete.others] forall j tp :: j != key ==> at(U, a.items[j]) == at(L, a.items[j])
+//@   ensures [C13.kmutex.delete.forced-only-if-used] forall k tp :: at(U, a.forced[k]) == (at(L, a.forced[k]) || (k == key && at(L, a.users[k]) > 0))
+//@   ensures [C13.kmutex.delete.frame] a.mine == old(a.mine) && a.hw == old(a.hw) && a.hr == old(a.hr) && a.mymu == old(a.mymu) && at(U, a.users) == at(L, a.users)
 
 //@ func (*mutex).Clear
 //@   tags C13 C07
 //@   requires a != nil
-//@   ensures [C13.kmutex.clear] forall j tp :: !at(U, haskey(a.items, j))
 //@   at call Lock#0 label L
 //@   at before call Unlock#0 label U
+//@   at call Lock#0 ghost a.forced = lambda k tp :: a.forced[k] || a.users[k] > 0
+//@   ensures [C13.kmutex.clear] forall j tp :: !at(U, haskey(a.items, j))
+//@   ensures [C13.kmutex.clear.forced-only-if-used] forall k tp :: at(U, a.forced[k]) == (at(L, a.forced[k]) || at(L, a.users[k]) > 0)
+//@   ensures [C13.kmutex.clear.frame] a.mine == old(a.mine) && a.hw == old(a.hw) && a.hr == old(a.hr) && a.mymu == old(a.mymu) && at(U, a.users) == at(L, a.users)
 
 //@ func (*mutex).ItemCount
 //@   tags C13 C07
 //@   requires a != nil
-//@   ensures [C13.kmutex.count] result == at(L, len(a.items))
 //@   at call Lock#0 label L
 //@   at before call Unlock#0 label U
+//@   ensures [C13.kmutex.count] result == at(L, len(a.items))
+//@   ensures [C13.kmutex.count.pure] (forall j tp :: at(U, haskey(a.items, j)) == at(L, haskey(a.items, j)) && at(U, a.items[j]) == at(L, a.items[j])) && at(U, a.users) == at(L, a.users) && at(U, a.forced) == at(L, a.forced) && a.mine == old(a.mine)
+
+// Base case of the lock invariant: a new map has no entries; with the initial ghost state (nobody uses any key,
+// nothing forced) every invariant clause holds.
+//@ func NewMutex
+//@   tags C13 C07
+//@   ensures [C13.kmutex.new.empty] fresh(unbox(result, "*github.com/dapr/kit/concurrency/cmap.mutex")) && unbox(result, "*github.com/dapr/kit/concurrency/cmap.mutex").items != nil && len(unbox(result, "*github.com/dapr/kit/concurrency/cmap.mutex").items) == 0 && (forall j tp :: !haskey(unbox(result, "*github.com/dapr/kit/concurrency/cmap.mutex").items, j))
+//@   ensures [C13.kmutex.new.inv] (forall k tp :: unbox(result, "*github.com/dapr/kit/concurrency/cmap.mutex").users[k] == 0 && !unbox(result, "*github.com/dapr/kit/concurrency/cmap.mutex").forced[k] && unbox(result, "*github.com/dapr/kit/concurrency/cmap.mutex").mine[k] == 0) ==> inv(unbox(result, "*github.com/dapr/kit/concurrency/cmap.mutex"))
